@@ -378,7 +378,7 @@ pub fn run_batch(
     // (cli-sim scenarios consist of up to some thousand CLI runs in the thorough tier, each with a
     // time limit of its own: the worker watchdog only has to catch a stuck simulator)
     let watchdog = if engine == "e2" {
-        Duration::from_secs(if tier == Tier::Thorough { 1800 } else { 240 })
+        Duration::from_secs(if tier == Tier::Thorough { 1800 } else { 90 })
     } else {
         watchdog.min(Duration::from_secs(20))
     };
@@ -527,7 +527,7 @@ pub fn exec_once(cfg: &WorkerCfg, engine: &str, variant: &str, scenario: &Value,
         cfg.env.push(("NVSIM_NO_NS".into(), "1".into()));
         watchdog = watchdog.min(Duration::from_secs(20));
     } else {
-        watchdog = watchdog.max(Duration::from_secs(1800));
+        watchdog = watchdog.max(Duration::from_secs(90));
     }
     let mut w = Worker::spawn(&cfg);
     let req = json!({"cmd": "exec", "engine": engine, "scenario": scenario});
